@@ -107,10 +107,15 @@ def pure(prog, cg):
 OPTION_FIELDS = ('quiet_output', 'dump_symbols', 'dump_macros', 'list', 'write_list_file')
 
 
+INPUT_LIBC = ('fgets', 'getc', 'fgetc', 'fread', 'ungetc', 'fseek', 'fscanf', 'getline', 'rewind', 'fsetpos', 'getchar')
+
+
 def opt(prog, cg):
     """R-OPT: a branch whose condition reads a reporting option (quiet_output, dump_symbols, dump_macros, list,
-    write_list_file, main's create_list) controls only reporting: nothing in the controlled statements can reach a
-    function that writes the image / symbols or consumes input, except the CPU's list_output formatter."""
+    write_list_file, main's create_list) controls only reporting: no statement that is control-dependent on the branch
+    (CFG post-dominance, so code skipped by an early return counts) can reach a function that writes the image / symbols
+    or consumes input (the tokeniser entry points and the libc readers), except the CPU's list_output formatter."""
+    from nk.cfg import dominators
     obs = []
     sink_cache = {}
 
@@ -120,25 +125,44 @@ def opt(prog, cg):
             sink_cache[key] = sorted(x for x in r if x in IMAGE_SINKS)
         return sink_cache[key]
     for fn in prog.functions(lambda f: f.file.startswith(('core/', 'main/naken_asm', 'asm/'))):
+        if not fn.blocks:
+            continue
         k = 0
-        for n in sorted(fn.nodes.values(), key=lambda x: x['i']):
-            if n['k'] != 'IfStmt':
+        pdom = None
+        for bid in sorted(fn.blocks):
+            b = fn.blocks[bid]
+            cond = fn.nodes.get(b.get('cond')) if 'cond' in b else None
+            if cond is None or len([x for x in b['s'] if x is not None]) < 2:
                 continue
-            ks = [x for x in kids(n) if x is not None]
-            if len(ks) < 2:
-                continue
-            cond = ks[0]
             reads = {x['n'] for x in walk(cond) if (x['k'] == 'MemberExpr' and x['n'] in OPTION_FIELDS and x.get('rec') == 'AsmContext')
                      or (x['k'] == 'DeclRefExpr' and x['n'] == 'create_list')}
             if not reads:
                 continue
             k += 1
+            if pdom is None:
+                pdom = dominators(fn, post=True, ignore_abort=True)
+            controlled = set()
+            for s_ in b['s']:
+                if s_ is None:
+                    continue
+                for x in fn.blocks:
+                    # x post-dominates the successor but not the branch itself
+                    if x in pdom.get(s_, ()) and x not in pdom.get(bid, ()) and x != bid:
+                        controlled.add(x)
             bad = []
-            for body in ks[1:]:
-                for x in walk(body):
+            for cb in sorted(controlled):
+                for e in fn.blocks[cb]['e']:
+                    x = fn.nodes.get(e)
+                    if x is None:
+                        continue
                     if x['k'] in ('CallExpr', 'CXXMemberCallExpr'):
                         ck = ckey(x)
                         if ck is None:
+                            if callee(x) in INPUT_LIBC:
+                                bad.append('%s() consumes input at line %d' % (callee(x), x['l']))
+                                continue
+                            if callee(x):
+                                continue        # other library function
                             tgt = strip(kids(x)[0], casts=True)
                             if tgt.get('n') == 'list_output':
                                 continue
@@ -151,10 +175,10 @@ def opt(prog, cg):
                         if t['k'] == 'MemberExpr' and t.get('rec') in ('AsmContext', 'Memory', 'Symbols') and \
                                 t['n'] not in ('write_list_file', 'list'):
                             bad.append('assigns %s::%s at line %d' % (t['rec'], t['n'], x['l']))
-            obs.append(Ob('R-OPT', fn.file, n['l'], fn.q, 'option-branch#%d:%s' % (k, '+'.join(sorted(reads))),
+            obs.append(Ob('R-OPT', fn.file, cond['l'], fn.q, 'option-branch#%d:%s' % (k, '+'.join(sorted(reads))),
                           VIOLATED if bad else DISCHARGED,
                           'statements controlled by a reporting option affect assembly: ' + '; '.join(bad[:3]) if bad else '',
-                          'controls only reporting statements'))
+                          'controls only reporting statements (%d control-dependent blocks)' % len(controlled)))
     return RuleResult('R-OPT', obs, 8, {})
 
 
@@ -174,3 +198,84 @@ def fresh(prog):
               '' if ok else 'assemble_code no longer assembles into a fresh automatic AsmContext (state can leak between interactive asm commands)',
               'AsmContext is a local automatic object; one copy loop into the shared memory', False)]
     return RuleResult('FRESH', obs, 1, {})
+
+
+OUT_NAME_OK = ('fopen', 'printf', 'fprintf', 'unlink', 'remove', 'strlen', 'strcmp', 'strcasecmp', 'strrchr', 'strchr', 'perror',
+               'FileIo::open_for_writing', 'FileIo::open')
+
+
+def outname(prog):
+    """OUT-NAME: the output file name (main's `outfile`, file_write's `filename` parameter and every buffer it is copied
+    to) is only opened, printed, compared or deleted: it is never handed to a function that writes file contents, and no
+    byte of it is stored anywhere else, so the bytes written cannot depend on the name of the output file."""
+    main = prog.fn('main', 'main/naken_asm.cpp')
+    src = [n for n in main.nodes.values() if n['k'] == 'DeclStmt' and any(d['n'] == 'outfile' for d in n.get('decls', ()))]
+    if not src:
+        raise AnalysisBroken('OUT-NAME: main() has no `outfile` variable')
+    d0 = [d for n in src for d in n['decls'] if d['n'] == 'outfile'][0]
+    work = [(main, d0['d'], 'outfile', 'main:outfile')]
+    seen = set()
+    obs = []
+    n_uses = 0
+    while work:
+        fn, decl, name, via = work.pop()
+        if (fn.key, decl) in seen:
+            continue
+        seen.add((fn.key, decl))
+        bad = []
+        for n in sorted(fn.nodes.values(), key=lambda x: x['i']):
+            if n['k'] != 'DeclRefExpr' or n.get('d') != decl:
+                continue
+            n_uses += 1
+            p = fn.parent.get(n['i'])
+            while p is not None and p['k'] in ('ImplicitCastExpr', 'ParenExpr', 'CStyleCastExpr'):
+                p = fn.parent.get(p['i'])
+            if p is None:
+                continue
+            if p['k'] == 'BinaryOperator' and p.get('op') in ('=', '==', '!='):
+                l = strip(kids(p)[0], casts=True)
+                if p['op'] != '=' or l.get('d') == decl:
+                    continue          # assignment to the variable itself, or a null test
+                bad.append('line %d: `%s` stores the output name elsewhere' % (p['l'], show(p)[:50]))
+                continue
+            if p['k'] in ('CallExpr', 'CXXMemberCallExpr'):
+                q = callee(p)
+                args = call_args(p)
+                pos = [i for i, a in enumerate(args) if strip(a, casts=True).get('d') == decl and strip(a, casts=True)['k'] == 'DeclRefExpr']
+                if q in ('strcpy', 'strncpy', 'strcat', 'snprintf', 'sprintf', 'new_extension'):
+                    if pos and pos[0] == 0:
+                        continue      # the buffer itself is the destination / edited in place
+                    dst = strip(args[0], casts=True)
+                    if dst['k'] == 'DeclRefExpr' and dst.get('dk') != 'param' and dst.get('d') is not None:
+                        work.append((fn, dst['d'], dst['n'], via + ' -> %s:%s' % (fn.q, dst['n'])))
+                        continue
+                    bad.append('line %d: copied into `%s`' % (p['l'], show(args[0])[:30]))
+                    continue
+                if q in OUT_NAME_OK:
+                    continue
+                ck = ckey(p)
+                tgt = prog.by_key.get(ck) if ck else None
+                if tgt is not None and pos:
+                    ps = tgt.params()
+                    for i in pos:
+                        # member calls: call_args excludes the object
+                        if i < len(ps):
+                            work.append((tgt, ps[i]['d'], ps[i]['n'], via + ' -> %s:%d %s(%s)' % (fn.file, p['l'], tgt.q, ps[i]['n'])))
+                    continue
+                bad.append('line %d: passed to %s()' % (p['l'], q or 'an indirect call'))
+                continue
+            if p['k'] in ('IfStmt', 'UnaryOperator', 'ConditionalOperator', 'DeclStmt', 'ReturnStmt'):
+                if p['k'] == 'UnaryOperator' and p.get('op') == '*':
+                    bad.append('line %d: the characters of the name are read (`%s`)' % (p['l'], show(fn.parent.get(p['i']) or p)[:40]))
+                    continue
+                if p['k'] in ('ReturnStmt', 'DeclStmt'):
+                    bad.append('line %d: the name escapes through `%s`' % (p['l'], show(p)[:40]))
+                continue
+            bad.append('line %d: used in `%s`' % (p['l'], show(p)[:50]))
+        obs.append(Ob('OUT-NAME', fn.file, fn.line, fn.q, 'name:%s' % name, VIOLATED if bad else DISCHARGED,
+                      'the output file name reaches file contents or state (flow: %s): ' % via + '; '.join(bad[:3]) if bad else '',
+                      'only opened / printed / compared / deleted'))
+    # the flow must have reached file_write (otherwise the anchor moved)
+    if not any(o.function == 'file_write' for o in obs):
+        raise AnalysisBroken('OUT-NAME: the output name was not followed into file_write()')
+    return RuleResult('OUT-NAME', obs, 3, {'uses': n_uses})
